@@ -7,6 +7,7 @@ def errStr : Err → String
   | .conflict => "err:Conflict"
   | .undoError => "err:Undo"
   | .txnError => "err:Txn"
+  | .readConflict => "err:ReadConflict"
   | .blocked => "err:Blocked"
   | .unsupported => "err:Unsupported"
 
@@ -86,6 +87,10 @@ def demoStep (s : Store) (toks : List String) : Store × String :=
     (match x.toNat?, tidArg u with
      | some x, some u => doStep s (.undo x u)
      | _, _ => (s, "bad-op"))
+  | ["cc", x, o, ser] =>
+    (match x.toNat?, o.toNat?, tidArg ser with
+     | some x, some o, some ser => doStep s (.checkCurrent x o ser)
+     | _, _, _ => (s, "bad-op"))
   | ["pack", p] => (match tidArg p with | some p => doStep s (.pack p) | none => (s, "bad-op"))
   | ["newoid", ds] => (match natList ds with | some ds => doStep s (.newOid ds) | none => (s, "bad-op"))
   | ["push", d] => (match d.toNat? with | some d => doStep s (.push d) | none => (s, "bad-op"))
